@@ -3,7 +3,7 @@
    A case evaluates to None when everything selected by the mask agrees, else to
    Some (op index, component id) of the first disagreement. *)
 From stdpp Require Import gmap sorting.
-From Goat Require Import Base.Prelude Gen.Consts Model.Locking Cases.Common.
+From Goat Require Import Base.Prelude Gen.Consts Model.Locking Model.LockingGenesis Cases.Common.
 Local Open Scope Z_scope.
 
 Definition vdump : Type := (N * (N * N * list (N * Z) * Z * Z * N * Z * Z * Z))%type.
@@ -104,8 +104,14 @@ Definition step (mask : list bool) (s : lstate) (o : lop) (ob : lobs) : lstate *
     (s', if mask_at mask 12 && negb (c =? cls)%N then Some 12%N
          else if mask_at mask 13 && negb (bool_decide (set_of_updates u = set_of_updates ups) && (length u =? length ups)%nat) then Some 13%N
          else if mask_at mask 14 && negb (bool_decide (map ltx_dump t = txs)) then Some 14%N
+         (* 16: after a successful EndBlocker the recorded set is the active validators (C18 / C13 invariant) *)
+         else if mask_at mask 15 && (c =? 0)%N && (match k with KEnd => true | _ => false end) && negb (set_okb s') then Some 16%N
          else None)
-  | LDump d => (s, first_bad (firstn 12 mask) 0%N s d)
+  | LDump d => (s, match first_bad (firstn 12 mask) 0%N s d with
+                   | Some c => Some c
+                   (* 15: ranking / per-token index / threshold list agree with their sources on every reached state *)
+                   | None => if mask_at mask 15 && negb (derived_okb s) then Some 15%N else None
+                   end)
   end.
 
 Fixpoint run (mask : list bool) (s : lstate) (i : N) (ops : list (lop * lobs)) : option (N * N) :=
